@@ -23,6 +23,7 @@ import (
 	"github.com/multiformats/go-multicodec"
 	"github.com/rpcpool/yellowstone-faithful/accum"
 	"github.com/rpcpool/yellowstone-faithful/ipld/ipldbindcode"
+	"github.com/rpcpool/yellowstone-faithful/iplddecoders"
 	"github.com/rpcpool/yellowstone-faithful/third_party/solana_proto/confirmed_block"
 	"github.com/rpcpool/yellowstone-faithful/tooling"
 	"github.com/rpcpool/yellowstone-faithful/zzverif/vt"
@@ -283,6 +284,20 @@ func TestVerifC14(t *testing.T) {
 			}
 			if side == "raw" {
 				continue
+			}
+			// the server hands these functions a node it has just decoded from the CAR: the transaction node goes through the
+			// reference encoder and the fast decoder first (frames without continuation omit `next`, as the archive writer does)
+			{
+				n := bindnode.Wrap(txNode, ipldbindcode.Prototypes.Transaction.Type()).Representation()
+				var buf bytes.Buffer
+				if err := dagcbor.Encode(n, &buf); err == nil {
+					if dec, err := iplddecoders.DecodeTransaction(buf.Bytes()); err == nil {
+						txNode = dec
+					} else {
+						emit("iplddecoders.DecodeTransaction", nil, payload, err, "")
+						continue
+					}
+				}
 			}
 			{
 				var gtx, gmeta []byte
